@@ -2,6 +2,7 @@ package streams
 
 import (
 	"fmt"
+	"math"
 
 	"go.mongodb.org/mongo-driver/bson"
 	"go.mongodb.org/mongo-driver/bson/primitive"
@@ -117,7 +118,9 @@ func oneOp(r *gen.R, depth int, malformed bool) bson.E {
 		return bson.E{Key: "$elemMatch", Value: fieldConds(r, depth-1, malformed, 1+r.N(2))}
 	case k < 16:
 		if malformed && r.P(50) {
-			return bson.E{Key: "$mod", Value: []interface{}{bson.A{int32(0), int32(1)}, bson.A{int32(2)}, int32(3), bson.A{1e300, int32(0)}, bson.A{"a", int32(0)}, bson.A{int32(2), int32(0), int32(1)}}[r.N(6)]}
+			return bson.E{Key: "$mod", Value: []interface{}{bson.A{int32(0), int32(1)}, bson.A{int32(2)}, int32(3), bson.A{1e300, int32(0)}, bson.A{"a", int32(0)}, bson.A{int32(2), int32(0), int32(1)},
+				bson.A{0.5, int32(0)}, bson.A{-0.25, int32(0)}, bson.A{5e-324, int32(0)}, bson.A{math.Copysign(0, -1), int32(0)}, bson.A{math.NaN(), int32(0)},
+				bson.A{int64(math.MinInt64), int32(0)}, bson.A{int32(-1), int64(math.MinInt64)}, bson.A{-9.3e18, int32(0)}, bson.A{0.999, 0.999}}[r.N(15)]}
 		}
 		div := []interface{}{int32(2), int64(3), 2.5, int32(-2), int64(-1), 4.0}[r.N(6)]
 		rem := []interface{}{int32(0), int64(1), 1.0, int32(-1), 0.5}[r.N(5)]
